@@ -177,7 +177,7 @@ def standin_all_small_graphs(tier, seed):
                 rule="one evaluation = one set of definitions given to the real VariablesDAG constructor and compared with the "
                      "reference closure; non-trivial = accepted (acyclic, no unknown / self / isolated node); all graphs are distinct",
                 samples=[dict(nodes=4, definitions={"a": [], "b": ["a"], "c": ["a", "b"], "d": ["c"]})],
-                violations=violations[:4],
+                violations=violations[:60],
                 bound=dict(space=f"all labelled digraphs with <= {max_n} nodes (2^(n^2) each)" + (" + stride sample of 5-node graphs" if tier == "quick" else ""),
                            exhaustive=True, larger_sampled=200 if tier == "quick" else 5000, seed=seed))
 
